@@ -320,13 +320,8 @@ func (r *Resolver) Resolve(ctx context.Context, name string) (ResolveResult, err
 		}
 		return result, nil
 	}
-	if len(name) > 255 {
+	if !validDNSName(name) {
 		return result, ErrInvalidName
-	}
-	for _, p := range strings.Split(name, ".") {
-		if len(p) > 63 {
-			return result, ErrInvalidName
-		}
 	}
 
 	if r.insecureUseGoResolver {
@@ -351,6 +346,11 @@ func (r *Resolver) Resolve(ctx context.Context, name string) (ResolveResult, err
 		svcbName = fmt.Sprintf("_%d._%s.%s", result.Port, scheme, name)
 	} else if scheme != "https" {
 		svcbName = fmt.Sprintf("_%s.%s", scheme, name)
+	}
+
+	// The scheme and the port are part of the QNAME too.
+	if !validDNSName(svcbName) {
+		return result, ErrInvalidName
 	}
 
 	// First, resolve HTTPS Aliases.
@@ -424,6 +424,21 @@ func (r *Resolver) Resolve(ctx context.Context, name string) (ResolveResult, err
 		result.Address = append(result.Address, v.(net.IP))
 	}
 	return result, nil
+}
+
+// validDNSName reports whether name fits in a DNS message: labels of at most
+// 63 octets and at most 253 octets overall (255 on the wire).
+func validDNSName(name string) bool {
+	name = strings.TrimSuffix(name, ".")
+	if len(name) > 253 {
+		return false
+	}
+	for _, p := range strings.Split(name, ".") {
+		if len(p) > 63 {
+			return false
+		}
+	}
+	return true
 }
 
 func (r *Resolver) resolveTarget(ctx context.Context, name string, res *ResolveResult) error {
